@@ -418,3 +418,25 @@ def r18_6(run):
 
 
 RULES = [("R18.6", r18_6), ("R18.1", r18_1), ("R18.2", r18_2), ("R18.3", r18_3), ("R18.5", r18_5)]
+
+
+def r18_7(run):
+    """the graph is built and searched with the switches the caller gave: a parameter handed on unchanged to another function of the
+    topology package goes to the parameter of the same name (shared with C17 R17.7: crossed flags in a positional call)"""
+    from .c17 import r17_7
+    r17_7(run, modules=("pandapipes.topology",), label="the topology functions", min_n=10)
+
+
+RULES.append(("R18.7", r18_7))
+
+
+def r18_8(run):
+    """graph and solver agree on where a closed pipe valve separates: the graph drops the edge of the pipe end the valve sits on, the
+    solver gives that (junction, pipe) pair its own internal node.  Valves share an internal node exactly when both reference columns
+    agree, compared row-wise -- shared with C04 R4.9 (a scalar key merges distinct pipe ends: the solver then lets flow pass a closed
+    valve the graph treats as a cut)."""
+    from .c04 import r4_9
+    r4_9(run)
+
+
+RULES.append(("R18.8", r18_8))
